@@ -368,6 +368,10 @@ def rand_dist(rnd, unit_mass=40.0, units=(1, 12), families=None):
     if fam == "uniform":
         lo = int(mean * rnd.choice([0.0, 0.5, 0.9]))
         hi = int(mean * rnd.choice([1.1, 1.5, 2.0])) + 1
+        if rnd.random() < 0.3:
+            # bounds written with a fraction: the library truncates them (`int(...)`), the canonical string shows the truncated bounds
+            flo, fhi = rnd.choice([0.9, 0.5, 0.25]), rnd.choice([0.9, 0.5, 0.75])
+            return fam, [lo, hi], f"uniform({lo + flo!r},{ws(rnd)}{hi + fhi!r})"
         return fam, [lo, hi], f"uniform({lo},{ws(rnd)}{hi})"
     if fam == "schulz_zimm":
         mn = round(mean, 0)
@@ -493,7 +497,7 @@ def token_mass_guess(tok):
 
 
 ARCHETYPES = ["homo", "random", "block", "alternating", "stepgrowth", "star", "graft", "hyper", "endinit2", "prefix_suffix", "connector",
-              "multibond", "dollar_homo", "listweights", "leftlist", "mixedorder", "multikind", "listhandover", "orderprefix", "listterminate"]
+              "multibond", "dollar_homo", "listweights", "leftlist", "mixedorder", "multikind", "listhandover", "orderprefix", "listterminate", "zeroside"]
 
 
 def rand_molecule(rnd, archetype=None, small=True, families=None, palette=None, units=(1, 8)):
@@ -655,6 +659,14 @@ def rand_molecule(rnd, archetype=None, small=True, families=None, palette=None, 
             return rand_molecule(rnd, "multibond", small, families, palette, units)
         st = StochT(None, [unit, unit2], [e1, e2], None, dist_for([unit, unit2]), lay())
         return MolT([st], None, a)
+    if a == "zeroside":
+        # side descriptors of weight 0 that are only ever capped, next to a backbone descriptor kept for a NON-empty right terminal: at every
+        # finalisation all descriptors to be capped have weight 0 (uniform pick among them), the kept one must not be among the options
+        unit = make_token(rnd, [D("<", _w(rnd, 0.2)), DescT(">", did, ("s", spell(rnd, 0.0))), D(">", _w(rnd, 0.3))], n_atoms=rnd.randint(3, 6), palette=pal)
+        extra = [make_token(rnd, [D("<"), DescT(">", did, ("s", "0")), D(">")], n_atoms=rnd.randint(3, 5), palette=pal)] if rnd.random() < 0.4 else []
+        ends = [_end(rnd, D("<"), palette=pal)] + ([_end(rnd, D("<", _w(rnd, 0.5)), palette=pal)] if rnd.random() < 0.4 else [])
+        st = StochT(DescT(">", did), [unit] + extra, ends, DescT("<", did), dist_for([unit] + extra), lay())
+        return MolT([_plain(rnd, palette=pal), st, _plain(rnd, palette=pal)], None, a)
     if a == "listterminate":
         # transition lists with POSITIVE entries at end-group slots: the list itself may terminate the chain (slots: the descriptors of the
         # repeat units in written order, then those of the end groups)
